@@ -218,8 +218,8 @@ def rule_g(repo, chk):
     outer = [l for l in loops if norm(l.iter) == 'values']
     chk.ob('C04.g', len(outer) == 1, f, 'one loop over all values')
     for lp in loops:
-        esc = [x for x in ast.walk(lp) if isinstance(x, (ast.Break, ast.Continue, ast.Return))]
-        chk.ob('C04.g', not esc, lp, 'no break/continue/return in `for %s in %s`' % (norm(lp.target), short(lp.iter, 40)))
+        esc = [x for x in ast.walk(lp) if isinstance(x, (ast.Break, ast.Return))]
+        chk.ob('C04.g', not esc, lp, 'no break/return in `for %s in %s`' % (norm(lp.target), short(lp.iter, 40)))
     inner = [l for l in loops if 'get_filters(' in norm(l.iter)]
     chk.floor('C04.g', len(inner), 1)
     for lp in inner:
